@@ -82,7 +82,7 @@ def run_exp(case, path, conf=(1, 0, 0), fail_now=False):
     r = Experiment(triples).run(path, quiet=True, processes=conf[0], maxchunksperchild=conf[1], maxtasksperchunk=conf[2])
     return c07.tables(r), list(calls)
 
-def check_exp(ctx, case, tmp, ncuts, every_byte, reqs, metas):
+def check_exp(ctx, case, tmp, ncuts, every_byte, reqs, metas, cut_fractions=None):
     from coba.results import Result
     rng = ctx.rng
     ext = ".log.gz" if case["gz"] else ".log"
@@ -99,7 +99,8 @@ def check_exp(ctx, case, tmp, ncuts, every_byte, reqs, metas):
     # record boundaries in the raw file: positions after which the independent reader sees one more record
     bounds = []
     probe = os.path.join(tmp, "probe" + ext)
-    if every_byte: cuts = list(range(0, len(raw) + 1))
+    if cut_fractions is not None: cuts = sorted({min(len(raw), max(0, int(len(raw) * f) + d)) for f, d in cut_fractions})      # a long log: a few cuts, no boundary search
+    elif every_byte: cuts = list(range(0, len(raw) + 1))
     else:
         # find boundaries by bisection over the number of complete records
         def nrec(c):
@@ -231,6 +232,10 @@ def run(ctx):
                       rows=[((0, 0, 0), [{"x": 1}]), ((1, 0, 0), [{"x": 2}]), ((0, 1, 0), []), ((1, 1, 0), [{"x": 4}])])
         for gz in (False, True):
             c = dict(corpus, gz=gz); check_exp(ctx, c, tmp, 6, ctx.tier == "thorough" or ctx.escalated, reqs, metas)
+        # a long log (more than a thousand records): resuming rewrites the complete records through a sink of its own
+        big = dict(env_params=[{"e": i} for i in range(36)], lrn_params=[{"l": i} for i in range(30)], val_params=[{}], gz=ctx.seed % 2 == 1, restored=False, fail=[], style="product",
+                   rows=[((e, l, 0), [{"x": e * 100 + l}]) for e in range(36) for l in range(30)])
+        check_exp(ctx, big, tmp, 0, False, reqs, metas, cut_fractions=[(1.0, 0), (1.0, -1), (0.97, 0)])
         for i in range(ctx.n(8, 60)):
             if len(ctx.failures) >= 25: break
             check_exp(ctx, gen_exp(ctx.rng), tmp, ctx.n(6, 12), (ctx.tier == "thorough" or ctx.escalated) and i < 6, reqs, metas)
